@@ -277,10 +277,24 @@ EmitMove:
 
               wd.swap(var_id, cur_id, alt_id, out_id);
               cur.set_reg_id(out_id);
-              var.mark_done();
               alt_var.cur.set_reg_id(cur_id);
 
+              // Swap only exchanges the content of both registers, so sign or zero extend each of them if required.
+              if (is_int_extension_required(out.type_id(), cur.type_id())) {
+                ASMJIT_PROPAGATE(
+                  emit_arg_move(
+                    Reg(RegUtils::signature_of(out.reg_type()), out_id), out.type_id(),
+                    Reg(RegUtils::signature_of(cur.reg_type()), out_id), cur.type_id()));
+              }
+              var.mark_done();
+
               if (alt_var.out.is_initialized()) {
+                if (is_int_extension_required(alt_var.out.type_id(), alt_var.cur.type_id())) {
+                  ASMJIT_PROPAGATE(
+                    emit_arg_move(
+                      Reg(RegUtils::signature_of(alt_var.out.reg_type()), cur_id), alt_var.out.type_id(),
+                      Reg(RegUtils::signature_of(alt_var.cur.reg_type()), cur_id), alt_var.cur.type_id()));
+                }
                 alt_var.mark_done();
               }
               work_flags |= kWorkDidSome;
